@@ -312,7 +312,7 @@ fn plan(property: &str, tier: &str) -> Option<Plan> {
                 jobs: jobs_for(&progs, &ws),
                 specs: Box::new(|_j| vec![Spec::full(Backend::Inplace, 0)]),
                 cfg: base_cfg(property, tier),
-                time_box: Duration::from_secs(if thorough { 2400 } else { 150 }),
+                time_box: Duration::from_secs(if thorough { 1200 } else { 150 }),
                 level: "model_checking",
                 functions: vec!["hpbf::exec::InplaceInterpreter::<SymCell<W>>::{create, execute}", "hpbf::runtime::{Memory::read, Memory::write, Memory::mov, Memory::make_accessible, Context::input, Context::output}"],
                 rule: "one case = (program, width); non-trivial = the exploration forked (>= 2 paths) or needed >= 1 solver query".into(),
@@ -328,7 +328,7 @@ fn plan(property: &str, tier: &str) -> Option<Plan> {
                 jobs: jobs_for(&progs, &ws),
                 specs: Box::new(move |_j| levels.iter().map(|&l| Spec::full(Backend::Ir, l)).collect()),
                 cfg: base_cfg(property, tier),
-                time_box: Duration::from_secs(if thorough { 2400 } else { 170 }),
+                time_box: Duration::from_secs(if thorough { 1200 } else { 170 }),
                 level: "translation_validation",
                 functions: vec!["hpbf::ir::Program::<SymCell<W>>::parse", "hpbf::ir::Program::optimize (src/opt.rs, all passes)", "hpbf::exec::IrInterpreter::<SymCell<W>>::{create, execute}", "hpbf::ir::Expr::evaluate", "hpbf::runtime::Memory / Context"],
                 rule: "one case = (program, width) with all optimisation levels run on every explored path; non-trivial = forked or needed >= 1 solver query".into(),
@@ -344,7 +344,7 @@ fn plan(property: &str, tier: &str) -> Option<Plan> {
                 jobs: jobs_for(&progs, &ws),
                 specs: Box::new(move |_j| levels.iter().map(|&l| Spec::full(Backend::Bc, l)).collect()),
                 cfg: base_cfg(property, tier),
-                time_box: Duration::from_secs(if thorough { 1800 } else { 100 }),
+                time_box: Duration::from_secs(if thorough { 1000 } else { 100 }),
                 level: "translation_validation",
                 functions: vec!["hpbf::ir::Program::parse / optimize", "hpbf::bc::CodeGen::translate(_, 2, true)", "hpbf::exec::BcInterpreter::<SymCell<W>>::{create, build_threaded_code, build_context, execute_in}", "hpbf::exec::bcint::ops::* (threaded-code operations)"],
                 rule: "one case = (program, width) with levels 0..3 run on every explored path, in the build profile named in coverage.profile; non-trivial = forked or needed >= 1 solver query".into(),
@@ -380,7 +380,7 @@ fn plan(property: &str, tier: &str) -> Option<Plan> {
                     v
                 }),
                 cfg,
-                time_box: Duration::from_secs(if thorough { 2400 } else { 170 }),
+                time_box: Duration::from_secs(if thorough { 1200 } else { 170 }),
                 level: "model_checking",
                 functions: vec!["hpbf::exec::{InplaceInterpreter, IrInterpreter, BcInterpreter}::<SymCell<W>>::execute_limited", "hpbf::exec::bcint::{build_threaded_code (limited=true), ops::limit}", "hpbf::exec::irint::execute_block::<_, true>"],
                 rule: format!("one case = (program, width); every explored path runs execute_limited for {} budgets plus 2^62 on each backend/level; non-trivial = forked or needed >= 1 solver query", nb),
@@ -426,7 +426,7 @@ fn plan(property: &str, tier: &str) -> Option<Plan> {
                     v
                 }),
                 cfg,
-                time_box: Duration::from_secs(if thorough { 2400 } else { 170 }),
+                time_box: Duration::from_secs(if thorough { 1200 } else { 170 }),
                 level: "fault_enumeration",
                 functions: vec!["hpbf::runtime::Context::{input, output}", "hpbf::exec::{InplaceInterpreter, IrInterpreter, BcInterpreter}::<SymCell<W>>::execute", "hpbf::exec::bcint::ops::{input, output}"],
                 rule: "one case = (program, width, flavour of refused write); the failing event index is a free decision of the exploration (every position among the first K outputs / inputs on every explored path), plus the configurations input absent and output absent; non-trivial = forked or needed >= 1 solver query".into(),
@@ -458,7 +458,7 @@ fn plan(property: &str, tier: &str) -> Option<Plan> {
                     v
                 }),
                 cfg,
-                time_box: Duration::from_secs(if thorough { 2400 } else { 170 }),
+                time_box: Duration::from_secs(if thorough { 1200 } else { 170 }),
                 level: "model_checking",
                 functions: vec!["hpbf::opt (infinite / no_return / no_continue classification)", "hpbf::bc::CodeGen (Scan lowering)", "hpbf::exec::{InplaceInterpreter, IrInterpreter, BcInterpreter}::<SymCell<W>>::{execute, execute_limited}"],
                 rule: "one case = (program, width); on reference paths proved divergent by a solver-checked state recurrence every backend/level must stay unfinished under budgets 64 and 256 with events a prefix of the periodic canonical stream; on halted paths the unlimited call must return within the operation cap; non-trivial = forked or needed >= 1 solver query".into(),
@@ -477,7 +477,7 @@ fn plan(property: &str, tier: &str) -> Option<Plan> {
                 jobs: with_guards(jobs_for(&progs, &ws)),
                 specs: Box::new(move |_j| levels.iter().flat_map(|&l| [Spec { mode: Mode::Unsafe(0), ..Spec::full(Backend::Bc, l) }, Spec { mode: Mode::Unsafe(0), ..Spec::full(Backend::Jit, l) }]).collect()),
                 cfg: base_cfg(property, tier),
-                time_box: Duration::from_secs(if thorough { 1800 } else { 150 }),
+                time_box: Duration::from_secs(if thorough { 1000 } else { 150 }),
                 level: "model_checking",
                 functions: vec!["hpbf::exec::BcInterpreter::<SymCell<W>>::execute_unsafe", "hpbf::exec::bcint::ops::{movl, movr, scanl, scanr}::<_, false>", "hpbf::runtime::Memory::make_accessible"],
                 rule: "one case = (program, width); execute_unsafe on a context pre-grown to the canonical excursion of the path plus the program length (rounded to whole pages), both ends of the region fenced by PROT_NONE pages; non-trivial = forked or needed >= 1 solver query".into(),
@@ -501,7 +501,7 @@ fn plan(property: &str, tier: &str) -> Option<Plan> {
                 jobs: with_guards(jobs_for(&progs, &ws)),
                 specs: Box::new(move |_j| cfgs.iter().map(|&(b, l)| Spec::full(b, l)).collect()),
                 cfg: base_cfg(property, tier),
-                time_box: Duration::from_secs(if thorough { 2400 } else { 170 }),
+                time_box: Duration::from_secs(if thorough { 1200 } else { 170 }),
                 level: "model_checking",
                 functions: vec!["hpbf::runtime::Memory::{read, write, write_out_of_bounds, make_accessible, mov, current_ptr, set_current_ptr, check_ptr}", "hpbf::exec::bcint::ops::{enter_ops, checkl, checkr, movl, movr, scanl, scanr}::<_, true> and every straight-line op", "hpbf::exec::bcint::BcInterpreter::{build_context, free_context}", "hpbf::exec::{InplaceInterpreter, IrInterpreter}::execute"],
                 rule: "one case = (program, width, guard placement); the real interpreters run symbolically while every alloc_zeroed block (tape, interpreter context with temporaries) sits flush against a PROT_NONE page on the stated side; a fault aborts the run and is replayed natively; events must equal the reference (cells keep their values across reallocations); non-trivial = forked or needed >= 1 solver query".into(),
@@ -518,7 +518,7 @@ fn plan(property: &str, tier: &str) -> Option<Plan> {
                 jobs: jobs_for(&progs, &ws),
                 specs: Box::new(move |_j| levels.iter().map(|&l| Spec::full(Backend::Jit, l)).collect()),
                 cfg: base_cfg(property, tier),
-                time_box: Duration::from_secs(if thorough { 2400 } else { 170 }),
+                time_box: Duration::from_secs(if thorough { 1200 } else { 170 }),
                 level: "translation_validation",
                 functions: vec!["hpbf::exec::BaseJitCompiler::<uN>::{create, compile_program (print_mc)}", "hpbf::exec::basejit::codegen::{emit_prologue, emit_program, emit_epilogue, fix_relocations, emit_pre_call, emit_post_call}", "hpbf::exec::basejit::asm::* (encoder)", "runtime shims hpbf_context_{extend,input,output} called natively on a shadow Context<uN>"],
                 rule: "one case = (program, width) with the machine code of every level executed in the x86 model on every explored path (registers, stack slots and tape cells are SMT terms; every address concrete and bounds-checked); non-trivial = forked or needed >= 1 solver query".into(),
@@ -544,7 +544,7 @@ fn plan(property: &str, tier: &str) -> Option<Plan> {
                     v
                 }),
                 cfg,
-                time_box: Duration::from_secs(if thorough { 1800 } else { 150 }),
+                time_box: Duration::from_secs(if thorough { 1000 } else { 150 }),
                 level: "model_checking",
                 functions: vec!["hpbf::ir::Program::parse", "hpbf::opt::optimize", "hpbf::bc::CodeGen::translate", "hpbf::exec::BcInterpreter::{build_threaded_code, build_context}", "Executable::execute called twice per executor on fresh contexts"],
                 rule: "one case = (program, width); every executor is built under catch_unwind and executed twice on every explored path, the two symbolic event logs must be identical terms; non-trivial = forked or needed >= 1 solver query".into(),
@@ -974,7 +974,7 @@ fn run_c11(tier: &str) -> i32 {
         job_cap: Duration::from_secs(if thorough { 120 } else { 3 }),
         levels: vec![0, 1, 2, 3],
     };
-    let time_box = Duration::from_secs(if thorough { 2400 } else { 170 });
+    let time_box = Duration::from_secs(if thorough { 1200 } else { 170 });
     let (out, skipped) = crate::c11::run_all(&jobs, &cfg, threads(), Instant::now() + time_box);
     // settle findings: replay concretely, filter known findings
     let known = report::Known::load();
